@@ -946,28 +946,27 @@ theorem splitBatches_flatten {α : Type} (cuts : List Nat) (fuel pos : Nat) (xs 
       · exact List.take_append_drop _ _
       · simp only [List.length_drop]; omega
 
-theorem startWalk_spec (b : Int) (blocks : List (Nat × Option Int)) (pre : Nat)
-    (hall : ∀ x ∈ blocks, ∃ fv, x.2 = some fv) :
+theorem startWalk_spec (b : Int) (blocks : List (Nat × Option Int)) (pre : Nat) :
     ∃ res, startWalk b blocks pre = .ok res ∧
       (res = pre ∨ ∃ x ∈ blocks, x.1 = res ∧ ∃ fv, x.2 = some fv ∧ fv < b) := by
   induction blocks generalizing pre with
   | nil => exact ⟨pre, rfl, Or.inl rfl⟩
   | cons x rest ih =>
     obtain ⟨rid, ofv⟩ := x
-    obtain ⟨fv, hfv⟩ := hall (rid, ofv) (by simp)
-    simp only at hfv
-    subst hfv
-    simp only [startWalk]
-    split
-    next hgt => exact ⟨pre, rfl, Or.inl rfl⟩
-    next hle =>
-      obtain ⟨res, hres, hcase⟩ := ih rid (fun y hy => hall y (by simp [hy]))
-      refine ⟨res, hres, ?_⟩
-      rcases hcase with h | ⟨y, hy, h1, h2⟩
-      · right
-        exact ⟨(rid, some fv), by simp, h.symm, fv, rfl, by omega⟩
-      · right
-        exact ⟨y, by simp [hy], h1, h2⟩
+    cases ofv with
+    | none => exact ⟨pre, rfl, Or.inl rfl⟩
+    | some fv =>
+      simp only [startWalk]
+      split
+      next hgt => exact ⟨pre, rfl, Or.inl rfl⟩
+      next hle =>
+        obtain ⟨res, hres, hcase⟩ := ih rid
+        refine ⟨res, hres, ?_⟩
+        rcases hcase with h | ⟨y, hy, h1, h2⟩
+        · right
+          exact ⟨(rid, some fv), by simp, h.symm, fv, rfl, by omega⟩
+        · right
+          exact ⟨y, by simp [hy], h1, h2⟩
 
 theorem liveRows_filter (l : List (Row × Bool)) (q : Row → Bool) :
     (liveRows l).filter q = liveRows (l.filter (fun x => q x.1)) := by
